@@ -135,11 +135,13 @@ func (mr *msgReader) resetFlate() {
 		mr.flateReader = getFlateReader(mr.flateBufio, nil)
 	}
 	mr.limitReader.r = mr.flateReader
+	verifEvent(mr.c, "get-flate-reader", mr.flateReader)
 	mr.flateTail.Reset(deflateMessageTail)
 }
 
 func (mr *msgReader) putFlateReader() {
 	if mr.flateReader != nil {
+		verifEvent(mr.c, "put-flate-reader", mr.flateReader)
 		putFlateReader(mr.flateReader)
 		mr.flateReader = nil
 		// The flate reader now belongs to the pool and may be handed to another
@@ -528,6 +530,7 @@ func (lr *limitReader) reset(r io.Reader) {
 }
 
 func (lr *limitReader) Read(p []byte) (int, error) {
+	verifEvent(lr.c, "use-limit-reader-source", lr.r)
 	if lr.n < 0 {
 		return lr.r.Read(p)
 	}
